@@ -143,6 +143,22 @@ func conclude(c *Check, tier string, seed int64, results []*WorkerResult, crashe
 		knownLines = append(knownLines, fmt.Sprintf("%s x%d", id, known[id]))
 	}
 
+	// An open finding that matched nothing in a complete run is stale (e.g. repaired in the tree
+	// but not marked fixed) and would absorb a later regression of the same shape: say so.
+	if os.Getenv("MC_FAMILY") == "" {
+		for _, f := range KnownFor(c.ID) {
+			if f.Status == "open" && known[f.ID] == 0 {
+				thoroughOnly := tier == "quick"
+				msg := fmt.Sprintf("open known finding %s matched no case of this run", f.ID)
+				if thoroughOnly {
+					msg += " (quick tier; it may be reachable in the thorough tier only)"
+				}
+				fmt.Println("NOTE:", msg)
+				notes = append(notes, msg)
+			}
+		}
+	}
+
 	// violations -> replay files
 	rdir := filepath.Join(VerifDir(), "replays", c.ID)
 	os.MkdirAll(rdir, 0o755)
